@@ -13,16 +13,16 @@ RULE = (
     "window of a generated listing, at instruction level, at operand level inside one item, and as $or inside a $deref field; decoy alternatives "
     "are vocabulary items or descriptions of other instructions of the same listing; then at most one listing mutator (class drawn first) is "
     "applied. Oracle: reference matcher verdict (bool and all-matches) and validity of every reported span. Non-trivial: the rule contains an "
-    "operator and the case is expected-found or a single-mutation near miss; distinct by canonical hash."
+    "operator and the case is expected-found or a single-mutation near miss; distinct by canonical hash. Extra levels: an operator nested directly in the same operator with the window permuted (an outer sibling between the inner group's instructions), a $deref as child of an operand-level $and/$and_any_order followed by a nested operator."
 )
 ASSUMPTIONS = [
     "no times, $not or captures in these rules (C02/C04/C05)",
     "reference matcher + hand-written operand table are the trusted base",
     "listings <= 12 instructions; windows <= 5 instructions",
 ]
-LEVELS = ["inst", "inst", "operand", "operand", "deref-or", "or-prefix", "anyorder-dup", "anyorder-varlen", "operand-deref-mix"]
+LEVELS = ["inst", "inst", "operand", "operand", "deref-or", "or-prefix", "anyorder-dup", "anyorder-varlen", "operand-deref-mix", "operand-deref-mix", "same-op-nested"]
 MUTATORS = ["none", "none", "none", "insert-copy", "insert-new", "delete", "replace-copy", "swap", "op-permute", "op-replace"]
-FLOORS = {"level=inst": 0.12, "level=operand": 0.12, "level=deref-or": 0.08, "level=or-prefix": 0.06, "level=anyorder-dup": 0.06, "level=anyorder-varlen": 0.06, "level=operand-deref-mix": 0.06, "expect=found": 0.25, "near-miss": 0.25, "nested": 0.2}
+FLOORS = {"level=inst": 0.12, "level=operand": 0.12, "level=deref-or": 0.08, "level=or-prefix": 0.06, "level=anyorder-dup": 0.06, "level=anyorder-varlen": 0.06, "level=operand-deref-mix": 0.08, "level=same-op-nested": 0.05, "deref-inside-operand-operator": 0.02, "expect=found": 0.25, "near-miss": 0.25, "nested": 0.2}
 
 
 def budget(tier):
@@ -156,7 +156,52 @@ def cases(draw, max_depth=2):
         name = NV[k][1] if full[0] else substr(draw, NV[k][1])
         if draw(st.integers(0, 3)) == 0:
             pats = [{"$or": [deref, "zzz"]}] + pats[1:] if q == 0 else pats
+        elif q + 1 < len(pats) and draw(st.integers(0, 2)) == 0:
+            # the $deref is itself a child of an operand-level operator, followed there by another (possibly nested) operator
+            grp = draw(st.sampled_from(["$and", "$and", "$and_any_order"]))
+            nxt = pats[q + 1]
+            if not isinstance(nxt, dict):
+                nxt = {"$or": [nxt, decoy_operand(draw)] if draw(st.booleans()) else [decoy_operand(draw), nxt]}
+            kids = [deref, nxt]
+            if grp == "$and_any_order" and draw(st.booleans()):
+                kids = [nxt, deref]
+            pats = pats[:q] + [{grp: kids}] + pats[q + 2:]
         pattern = [{name: pats}]
+    elif level == "same-op-nested":
+        # an operator nested DIRECTLY in the same operator: harmless to flatten for $or and $and, not for $and_any_order
+        # (any_order[a, any_order[b, c]] must keep b and c adjacent); the window is permuted so that an outer sibling
+        # may land between the inner group's instructions
+        wlen = draw(st.integers(3, min(4, n))) if n >= 3 else n
+        i = draw(st.integers(0, n - wlen))
+        j = i + wlen
+        descs = [describe_inst(draw, NV[k], full) for k in range(i, j)]
+        op = draw(st.sampled_from(["$and_any_order", "$and_any_order", "$and_any_order", "$and", "$or"]))
+        if wlen >= 3:
+            p0 = draw(st.integers(0, wlen - 2))
+            inner_kids = descs[p0:p0 + 2]
+            outer_kids = descs[:p0] + [{op: list(draw(st.permutations(inner_kids))) if op != "$and" else inner_kids}] + descs[p0 + 2:]
+            if op == "$and_any_order":
+                pattern = [{op: list(draw(st.permutations(outer_kids)))}]
+                perm = list(draw(st.permutations(list(range(i, j)))))
+                if draw(st.booleans()):
+                    # put an outer sibling between the two instructions of the inner group
+                    outer_idx = [x for x in range(i, j) if not (i + p0 <= x < i + p0 + 2)]
+                    mid = draw(st.sampled_from(outer_idx))
+                    rest = [x for x in outer_idx if x != mid]
+                    perm = rest[: len(rest) // 2] + [i + p0, mid, i + p0 + 1] + rest[len(rest) // 2:]
+                    if draw(st.booleans()):
+                        perm = list(reversed(perm))
+                window = [[L[x][0], L[x][1], list(L[x][2]), list(L[x][3])] for x in perm]
+                L[i:j] = window
+                NV = norm_view(L)
+            elif op == "$and":
+                pattern = [{"$and": outer_kids}]
+            else:
+                # $or directly in $or: the window shrinks to one instruction described by some alternative
+                alts = [descs[0], {"$or": [descs[1], descs[2]]}]
+                pattern = [{"$or": list(draw(st.permutations(alts)))}]
+        else:
+            pattern = descs
     elif level == "anyorder-dup":
         # $and_any_order with children that are equal (each child must still be used exactly once)
         wlen = draw(st.integers(2, min(4, n)))
@@ -289,6 +334,9 @@ def evaluate(case):
     ev.tags += [f"op={u}" for u in sorted(used)]
     if depth >= 2:
         ev.tags.append("nested")
+    if case["level"] == "operand-deref-mix" and any(isinstance(p_, dict) and list(p_)[0] in ("$and", "$and_any_order") and any(isinstance(c_, dict) and "$deref" in c_ for c_ in p_[list(p_)[0]])
+                                                    for it in pattern if isinstance(it, dict) for p_ in (it[list(it)[0]] or [])):
+        ev.tags.append("deref-inside-operand-operator")
     near = case["mut"] != "none"
     if near:
         ev.tags.append("near-miss")
